@@ -21,6 +21,7 @@ RULE += ("; added after the mutation rounds: several 1000-2000-residue chains an
 RULE += ("; round 5: charged-residue counts 511..514, 769, 1023..1025; objects restored from pickle / copy; look-alike words (nucleotide strings, reading frames); salt shuffles with frozen entries that are no positions")
 RULE += ("; round 6: charged patches joined by charge-free linkers of 99-260 residues")
 RULE += ("; round 7: copies from get_shuffled_sequence with half / a quarter / every other position frozen (140-200 residues); texts typed with one residue type in lower case; thorough tier: a 4202-residue chain with charges more than 4096 apart")
+RULE += ("; round 8: objects built from files whose path, size and time stamps repeat; block / cluster children in the salt")
 EXHAUSTIVE = {"quick": False, "thorough": False}
 EXHAUSTIVE_NOTE = {"quick": "all patterns of length <= 10 (88,572)", "thorough": "all patterns of length <= 12 (797,160)"}
 ASSUMPTIONS = [
